@@ -90,6 +90,8 @@ def groups(cfg):
     for g in cfg:
         if g["kind"] == "merge":
             d[g["name"]] = LabelMergeGroup(list(g["labels"]), single_instance=False)
+        elif g["kind"] == "merge_single":
+            d[g["name"]] = LabelMergeGroup(list(g["labels"]), single_instance=True)
         elif g["kind"] == "single":
             d[g["name"]] = LabelGroup(list(g["labels"]), single_instance=True)
         else:
